@@ -28,64 +28,65 @@ class VerifAssert(ValueError):
 # ------------------------------------------------------------------ value codec
 
 def enc(v):
-    """python value -> tagged JSON value (a snapshot: nothing is shared with v)"""
+    """python value -> tagged JSON value [tag, payload] (a snapshot: nothing is shared
+    with v); becomes the TLA+ tuple <<tag, payload>>"""
     if v is None:
-        return {'k': 'n'}
+        return ['n']
     if isinstance(v, bool):
-        return {'k': 'b', 'v': v}
+        return ['b', v]
     if isinstance(v, int):
         if not -2**31 < v < 2**31:
-            return {'k': 'f', 'v': repr(v)}
-        return {'k': 'i', 'v': v}
+            return ['f', repr(v)]
+        return ['i', v]
     if isinstance(v, float):
         if v != v or v in (float('inf'), float('-inf')):
-            return {'k': 'f', 'v': repr(v)}
+            return ['f', repr(v)]
         fr = Fraction(v)
         if fr.denominator == 1:
             return enc(int(fr))
         ap = fr.limit_denominator(10000)
         if abs(ap - fr) <= abs(fr) * Fraction(1, 10**9):
-            return {'k': 'q', 'n': ap.numerator, 'd': ap.denominator}
-        return {'k': 'f', 'v': repr(v)}
+            return ['q', ap.numerator, ap.denominator]
+        return ['f', repr(v)]
     if isinstance(v, Fraction):
         if v.denominator == 1:
             return enc(int(v))
-        return {'k': 'q', 'n': v.numerator, 'd': v.denominator}
+        return ['q', v.numerator, v.denominator]
     if isinstance(v, tuple):
-        return {'k': 't', 'v': [enc(x) for x in v]}
+        return ['t', [enc(x) for x in v]]
     if isinstance(v, (list, deque, array)):
-        return {'k': 'l', 'v': [enc(x) for x in v]}
+        return ['l', [enc(x) for x in v]]
     if isinstance(v, VerifError):
-        return {'k': 'x', 'v': v.code}
+        return ['x', v.code]
     if isinstance(v, VerifAssert):
-        return {'k': 'x', 'v': -2}
+        return ['x', -2]
     if isinstance(v, BaseException):
-        return {'k': 'x', 'v': -1, 's': type(v).__name__}
+        return ['x', -1]
     if isinstance(v, str):
-        return {'k': 's', 'v': v}
-    return {'k': 'f', 'v': repr(v)}
+        return ['s', v]
+    return ['f', repr(v)]
 
 
 def dec(d):
-    k = d['k']
+    k = d[0]
     if k == 'n':
         return None
     if k in ('i', 'b', 's'):
-        return d['v']
+        return d[1]
     if k == 't':
-        return tuple(dec(x) for x in d['v'])
+        return tuple(dec(x) for x in d[1])
     if k == 'l':
-        return [dec(x) for x in d['v']]
+        return [dec(x) for x in d[1]]
     if k == 'q':
-        return Fraction(d['n'], d['d'])
+        return Fraction(d[1], d[2])
     raise C.MachineryError('cannot decode %r' % (d,))
 
 
 def I(n):
-    return {'k': 'i', 'v': n}
+    return ['i', n]
 
 
-NONE = {'k': 'n'}
+NONE = ['n']
 
 
 def flat_key(k):
@@ -472,8 +473,8 @@ def run_mux(pipe, events, timescale=None):
             if complete and rec.end['t'] == 'open':
                 src.on_completed()
         except Exception as e:  # escaped the operators: the stream is dead
-            rec.end = {'t': 'error', 'v': {'k': 'x', 'v': -1, 's': 'raised:' + type(e).__name__},
-                       'o': rec.nxt()}
+            rec.end = {'t': 'error', 'v': ['x', -1], 'o': rec.nxt(),
+                       'raised': type(e).__name__}
     return _finish(rec, pipe, 'mux', {'src': events})
 
 
@@ -507,8 +508,8 @@ def run_src(pipe, items, complete=True, timescale=None, use_multiplex=False):
             if complete and rec.end['t'] == 'open':
                 src.on_completed()
         except Exception as e:
-            rec.end = {'t': 'error', 'v': {'k': 'x', 'v': -1, 's': 'raised:' + type(e).__name__},
-                       'o': rec.nxt()}
+            rec.end = {'t': 'error', 'v': ['x', -1], 'o': rec.nxt(),
+                       'raised': type(e).__name__}
     return _finish(rec, pipe, 'src', {'src': items})
 
 
@@ -546,6 +547,6 @@ def run_plain(pipe, items, complete=True):
                 src.on_completed()
         except Exception as e:
             state['end'] = 'error'
-            state['err'] = {'k': 'x', 'v': -1, 's': 'raised:' + type(e).__name__}
+            state['err'] = ['x', -1]
             state['endstep'] = state['step']
     return {'out': out, 'end': state['end'], 'err': state['err'], 'endstep': state['endstep']}
